@@ -143,7 +143,7 @@ class RandomSearcher(StochasticAndFilterDuplicatesSearcher):
             self.config_space,
             metric=self._metric,
             points_to_evaluate=[],
-            debug_log=self._debug_log,
+            debug_log=False if self._debug_log is None else self._debug_log,
             allow_duplicates=self._allow_duplicates,
         )
         new_searcher._resource_attr = self._resource_attr
